@@ -194,6 +194,15 @@ def _strip_subscripts(e):
     return e
 
 
+def _dict_of(e):
+    """x when e is the attribute dictionary of x: `x.__dict__` / `vars(x)`; else None."""
+    if isinstance(e, ast.Attribute) and e.attr == "__dict__":
+        return e.value
+    if isinstance(e, ast.Call) and isinstance(e.func, ast.Name) and e.func.id == "vars" and len(e.args) == 1 and not e.keywords:
+        return e.args[0]
+    return None
+
+
 def _table_of(e):
     """'_by_key' etc. when e is `<recv>.<table>` (any receiver)."""
     if isinstance(e, ast.Attribute) and e.attr in TABLES:
@@ -229,6 +238,52 @@ def reaching_defs(fi, name, nid):
             seen.add(id(w))
             res.append(w)
     return res
+
+
+def _const_truth(e, none_names=()):
+    """True / False when the truth value of the test e is fixed: constants, names known to hold None
+    (`none_names`), `is` / `==` comparisons between those, `not`, and / or; else None."""
+    UNK = _const_truth
+
+    def val(x):
+        if isinstance(x, ast.Constant):
+            return x.value
+        if isinstance(x, ast.Name) and x.id in none_names:
+            return None
+        return UNK
+
+    if isinstance(e, ast.UnaryOp) and isinstance(e.op, ast.Not):
+        t = _const_truth(e.operand, none_names)
+        return None if t is None else not t
+    if isinstance(e, ast.BoolOp):
+        ts = [_const_truth(x, none_names) for x in e.values]
+        if isinstance(e.op, ast.And):
+            return False if any(t is False for t in ts) else (True if all(t is True for t in ts) else None)
+        return True if any(t is True for t in ts) else (False if all(t is False for t in ts) else None)
+    if isinstance(e, ast.Compare) and len(e.ops) == 1 and isinstance(e.ops[0], (ast.Is, ast.IsNot, ast.Eq, ast.NotEq)):
+        l, r = val(e.left), val(e.comparators[0])
+        pos = isinstance(e.ops[0], (ast.Is, ast.Eq))
+        if l is not UNK and r is not UNK and (l is None or r is None or isinstance(e.ops[0], (ast.Eq, ast.NotEq))):
+            res = (l is None and r is None) if (l is None or r is None) else l == r
+            return res if pos else not res
+        # a value that is certainly an object (call of a constructor-like literal) is not decided here
+        return None
+    v = val(e)
+    if v is UNK:
+        return None
+    return bool(v)
+
+
+def _dead_outcomes(cfg, none_names=()):
+    """Branch pseudo-nodes that can never be taken because their test has a fixed truth value (a helper
+    expanded or summarised with a constant argument: `if None is not None:`)."""
+    dead = set()
+    for nd in cfg.nodes:
+        if nd.kind in ("T", "F") and nd.ast is not None and isinstance(nd.ast, ast.expr):
+            t = _const_truth(nd.ast, none_names)
+            if t is not None and t != (nd.kind == "T"):
+                dead.add(nd.id)
+    return dead
 
 
 class Env:
@@ -379,7 +434,8 @@ class Effects:
             writes = writes_to_name(fi.node, e.id)
             if not writes:
                 if e.id in pnames:
-                    return env.pstates.get(e.id, "unk")
+                    st = env.pstates.get(e.id, "unk")
+                    return "other" if st == "none" else st
                 return "unk"
             defs = reaching_defs(fi, e.id, nid)
             if not defs:
@@ -395,7 +451,7 @@ class Effects:
                 else:
                     sts.append("unk")
             if e.id in pnames and any(nid in cfg.reach({cfg.entry}, avoid={x for w in writes for x in cfg.locate(w)}, include_src=True) for _ in (0,)):
-                sts.append(env.pstates.get(e.id, "unk"))
+                sts.append({"none": "other"}.get(env.pstates.get(e.id), env.pstates.get(e.id, "unk")))
             st = _join(sts)
             if st == "fresh" and any(nid in cfg.reach({p}) for p in self.publish_nodes(fi, e.id)):
                 return "pub"
@@ -484,10 +540,22 @@ class Effects:
                     if selfstate == "other":
                         selfstate = "unk"
             pst = {}
-            for p, a in self.bind_args(call, params(callee)).items():
+            cps = params(callee)
+            bound = self.bind_args(call, cps)
+            for p, a in bound.items():
                 s = self.state(fi, env, a, nid)
                 if s in ("pub", "fresh"):
                     pst[p] = s
+                elif isinstance(a, ast.Constant) and a.value is None:
+                    pst[p] = "none"
+                elif isinstance(a, ast.Name) and env.pstates.get(a.id) == "none" and not writes_to_name(fi.node, a.id):
+                    pst[p] = "none"
+            if not any(isinstance(a, ast.Starred) for a in call.args) and not any(k.arg is None for k in call.keywords):
+                for p in cps:
+                    if p not in bound:
+                        d = _param_default(callee, p)
+                        if isinstance(d, ast.Constant) and d.value is None:
+                            pst[p] = "none"
             out.append((callee, sc, Env(selfstate, pst)))
         return out
 
@@ -591,6 +659,16 @@ class Effects:
                 for t in tgts:
                     for tt in (t.elts if isinstance(t, (ast.Tuple, ast.List)) else [t]):
                         base = _strip_subscripts(tt)
+                        if isinstance(tt, ast.Subscript) and _dict_of(tt.value) is not None:
+                            # r.__dict__["links"] = v / vars(r)["links"] = v
+                            kk = resolve_local(fi.node, tt.slice)
+                            if not (isinstance(kk, ast.Constant) and kk.value not in REG_ATTRS):
+                                st = self.state(fi, env, _dict_of(tt.value), nd.id)
+                                if st == "fresh":
+                                    S.exempt.append("%s: %s (receiver under construction)" % (fi.short, stmt_text(n, 60)))
+                                elif st != "other":
+                                    ch.append("store into the attribute dictionary of a %s registration" % ("published" if st == "pub" else "possibly published"))
+                            continue
                         if isinstance(base, ast.Attribute) and base.attr in REG_ATTRS:
                             st = self.state(fi, env, base.value, nd.id)
                             if st == "other":
@@ -607,6 +685,24 @@ class Effects:
                             S.exempt.append("%s: %s (receiver under construction)" % (fi.short, stmt_text(n, 60)))
                         elif st != "other":
                             events.append((_endpos(n), ["%s() on .%s of a %s registration" % (n.func.attr, base.attr, "published" if st == "pub" else "possibly published")], []))
+                # reflective spellings of an attribute store: setattr(r, "links", v), r.__setattr__("links", v),
+                # delattr, r.__dict__["links"] = v / vars(r)[...] = v / r.__dict__.update(...) (a name that is
+                # not a constant is taken to be any attribute)
+                robj = rname = None
+                if isinstance(n, ast.Call) and isinstance(n.func, ast.Name) and n.func.id in ("setattr", "delattr") and len(n.args) >= 2:
+                    robj, rname = n.args[0], n.args[1]
+                elif isinstance(n, ast.Call) and isinstance(n.func, ast.Attribute) and n.func.attr in ("__setattr__", "__delattr__") and n.args:
+                    robj, rname = n.func.value, n.args[0]
+                elif isinstance(n, ast.Call) and isinstance(n.func, ast.Attribute) and n.func.attr in MUT and _dict_of(n.func.value) is not None:
+                    robj, rname = _dict_of(n.func.value), None
+                if robj is not None:
+                    nm = resolve_local(fi.node, rname) if rname is not None else None
+                    if not (isinstance(nm, ast.Constant) and isinstance(nm.value, str) and nm.value not in REG_ATTRS):
+                        st = self.state(fi, env, robj, nd.id)
+                        if st == "fresh":
+                            S.exempt.append("%s: %s (receiver under construction)" % (fi.short, stmt_text(n, 60)))
+                        elif st != "other":
+                            events.append((_endpos(n), ["reflective store to %s of a %s registration" % ("." + nm.value if isinstance(nm, ast.Constant) else "an attribute", "published" if st == "pub" else "possibly published")], []))
                 if isinstance(n, ast.Call) and isinstance(n.func, ast.Attribute) and n.func.attr == "cancel" and isinstance(n.func.value, ast.Attribute) and n.func.value.attr == "timeout":
                     st = self.state(fi, env, n.func.value.value, nd.id)
                     if st != "other":
@@ -679,8 +775,13 @@ class Effects:
     def _analyse(self, fi, env, depth, S):
         cfg = cfg_of(fi)
         ch_nodes, rz_nodes = {}, {}
+        # branch outcomes that cannot be taken in this context: tests with a fixed truth value, e.g. `links is
+        # not None` in a helper that was expanded / is summarised for a call that passes (or defaults to) None
+        none_names = {p for p, st in env.pstates.items() if st == "none" and not writes_to_name(fi.node, p)}
+        dead = _dead_outcomes(cfg, none_names)
+        live = cfg.reach({cfg.entry}, avoid=dead, include_src=True)
         for nd in cfg.nodes:
-            if nd.kind not in ("stmt", "return", "raise", "test", "for", "with") or not cfg.is_reachable(nd.id):
+            if nd.kind not in ("stmt", "return", "raise", "test", "for", "with") or nd.id not in live:
                 continue
             events = self._events(fi, env, nd, depth, S)
             if not events:
@@ -706,16 +807,45 @@ class Effects:
                 if r not in S.raises:
                     S.raises.append(r)
         for a in sorted(ch_nodes):
-            after = cfg.reach({a})
+            after = cfg.reach({a}, avoid=dead)
             for b in sorted(rz_nodes):
                 if b in after:
                     self._violation(S, fi, cfg.nodes[a], ch_nodes[a][0], cfg.nodes[b], rz_nodes[b])
+        # a change made while the 4.xx is already in flight: the `finally` block of a try statement whose
+        # handlers do not catch the error runs before the error leaves the function
+        for b in sorted(rz_nodes):
+            for fin in self._finally_blocks_passed(fi, cfg.nodes[b], rz_nodes[b]):
+                for st in fin:
+                    hit = [x for n in ast.walk(st) for x in cfg.locate(n) if x in ch_nodes]
+                    if hit:
+                        self._violation(S, fi, cfg.nodes[hit[0]], ch_nodes[hit[0]][0] + " in a finally block that runs while the error propagates", cfg.nodes[b], rz_nodes[b])
+                        break
         # state of the returned value
         rets = []
         for nd in cfg.nodes:
             if nd.kind == "return" and nd.ast.value is not None and cfg.is_reachable(nd.id):
                 rets.append(self.state(fi, env, nd.ast.value, nd.id))
         S.ret = _join(rets) if rets else "other"
+
+    def _finally_blocks_passed(self, fi, nd, raises):
+        """finalbody statement lists a 4.xx raised at CFG node nd passes on its way out of fi (a block
+        that itself returns / breaks / continues swallows the error and is not counted)."""
+        cfg = cfg_of(fi)
+        out = []
+        classes = {cls for cls, _ in raises}
+        child, p = _node_construct(nd), cfg.parent.get(id(_node_construct(nd)))
+        while p is not None and p is not fi.node:
+            if isinstance(p, ast.Try):
+                in_body = any(child is b for b in p.body)
+                if in_body:
+                    classes = {c for c in classes if not any(self._handler_catches(fi, h, c) for h in p.handlers)}
+                    if not classes:
+                        break
+                if p.finalbody and not any(child is b for b in p.finalbody):
+                    if not any(isinstance(x, (ast.Return, ast.Break, ast.Continue)) for b in p.finalbody for x in walk_no_nested(b)):
+                        out.append(p.finalbody)
+            child, p = p, cfg.parent.get(id(p))
+        return out
 
     def _violation(self, S, fi, and_, change, bnd, raises):
         node = _node_construct(bnd)
@@ -792,11 +922,16 @@ def _check_published_premise(ctx):
 @R.clause("C20.a", "no 4.xx RenderableError is reachable after a change of RD state in any request handler (callees in rd.py inlined)")
 def a(ctx):
     prog = ctx.prog
+    # Anchors: the mechanism named by the property (CommonRD / Registration methods) and the request handlers.
+    # Private helpers of the handlers (RegistrationResource._update_params, pop_single_arg, query_split,
+    # link_format_from_message) are NOT anchors: the handlers are analysed with whatever helpers exist --
+    # callees in rd.py are inlined by their effect summaries, callees elsewhere by their escape sets -- so
+    # inlining, renaming, merging or splitting such a helper changes nothing in what is decided.
     for anchor in ("cli.rd.CommonRD.initialize_endpoint", "cli.rd.CommonRD.Registration.__init__", "cli.rd.CommonRD.Registration.update_params",
-                   "cli.rd.CommonRD.Registration.delete", "cli.rd.CommonRD.Registration._set_timeout", "cli.rd.CommonRD.Registration.refresh_timeout",
+                   "cli.rd.CommonRD.Registration.delete", "cli.rd.CommonRD.Registration._set_timeout",
                    "cli.rd.DirectoryResource.render_post", "cli.rd.RegistrationResource.render_post", "cli.rd.RegistrationResource.render_put",
-                   "cli.rd.RegistrationResource.render_delete", "cli.rd.RegistrationResource._update_params", "cli.rd.SimpleRegistration.render_post",
-                   "cli.rd.SimpleRegistration.process_request", "cli.rd.pop_single_arg", "cli.rd.query_split", "cli.rd.link_format_from_message"):
+                   "cli.rd.RegistrationResource.render_delete", "cli.rd.SimpleRegistration.render_post",
+                   "cli.rd.SimpleRegistration.process_request"):
         prog.func(anchor)
     ctx.need(Codes(prog).is_4xx("aiocoap.error.BadRequest") and not Codes(prog).is_4xx("aiocoap.error.InternalServerError"), "cannot classify response codes of error.BadRequest / InternalServerError")
     sites = _check_published_premise(ctx)
@@ -1141,17 +1276,21 @@ def c(ctx):
     prog = ctx.prog
     # _new_pathtail: every returned value is known not to be a key of _by_path (K.unused_member: a
     # dominating membership test in any spelling, or a value drawn from an iterable filtered by it)
-    nf = prog.func("cli.rd.CommonRD._new_pathtail")
-    cfg = cfg_of(nf)
-    rets = [nd for nd in cfg.nodes if nd.kind == "return" and cfg.is_reachable(nd.id)]
-    ctx.floor("returns of _new_pathtail", len(rets), 1)
-    for nd in rets:
-        ctx.ob("_new_pathtail returns only a path that is not in _by_path", K.unused_member(prog, nf, nd.ast, "self._by_path"), nf, nd.ast)
-    ctx.ob("_new_pathtail cannot fall off its end", cfg.exit not in cfg.reach({cfg.entry}, avoid={nd.id for nd in rets} | _infinite_loop_exits(cfg), skip_labels=("exc",)), nf, nf.node, construct="_new_pathtail")
+    # _new_pathtail is a private helper of initialize_endpoint: when it exists its returns are checked; when
+    # the allocation is written inline instead, the allocating expression itself must be drawn from an
+    # iterable filtered by absence from _by_path (K.filtered_absent), see the alternatives below
+    nf = prog.func("cli.rd.CommonRD._new_pathtail") if prog.has_func("cli.rd.CommonRD._new_pathtail") else None
+    if nf is not None:
+        cfg = cfg_of(nf)
+        rets = [nd for nd in cfg.nodes if nd.kind == "return" and cfg.is_reachable(nd.id)]
+        ctx.floor("returns of _new_pathtail", len(rets), 1)
+        for nd in rets:
+            ctx.ob("_new_pathtail returns only a path that is not in _by_path", K.unused_member(prog, nf, nd.ast, "self._by_path"), nf, nd.ast)
+        ctx.ob("_new_pathtail cannot fall off its end", cfg.exit not in cfg.reach({cfg.entry}, avoid={nd.id for nd in rets} | _infinite_loop_exits(cfg), skip_labels=("exc",)), nf, nf.node, construct="_new_pathtail")
 
     ie = prog.func("cli.rd.CommonRD.initialize_endpoint")
     icfg = cfg_of(ie)
-    ctx.ob("allocation and insertion of a location happen in one plain synchronous function", is_plain_sync(ie) and is_plain_sync(nf), ie, ie.node, construct="def initialize_endpoint")
+    ctx.ob("allocation and insertion of a location happen in one plain synchronous function", is_plain_sync(ie) and (nf is None or is_plain_sync(nf)), ie, ie.node, construct="def initialize_endpoint")
     ins_k, _, _ = _index_ops(ie, "_by_key")
     ins_p, _, _ = _index_ops(ie, "_by_path")
     ctx.floor("insertions into _by_key in initialize_endpoint", len(ins_k), 1)
@@ -1193,11 +1332,15 @@ def c(ctx):
         alts = _value_alternatives(ie, P)
         ctx.need(alts is not None, "location tail defined by an unexpected statement")
         ctx.floor("definitions of the location tail", len(alts), 2)
-        reuse = 0
+        reuse = fresh = 0
         for v, w, conds in alts:
             wn = icfg.loc1(w)
             v = resolve_local(ie.node, v) if isinstance(v, ast.Name) else v
-            if match("self._new_pathtail()", v) is not None:
+            # a fresh allocation: the checked helper, or an inline expression whose every possible value passed
+            # a `not in self._by_path` filter (nothing is inserted between it and the insertion below: the
+            # function is plain synchronous and its only _by_path insertion is the one examined here)
+            if (nf is not None and match("self._new_pathtail()", v) is not None) or K.filtered_absent(prog, ie, v, "self._by_path"):
+                fresh += 1
                 ctx.ob("a fresh location is only allocated when no registration exists under the key", _no_existing(prog, ie, icfg, wn, ins_k, conds), ie, w,
                        construct=stmt_text(w, 80) if not conds else "%s [arm %s]" % (stmt_text(w, 60), stmt_text(v, 30)))
                 continue
@@ -1222,6 +1365,7 @@ def c(ctx):
             ctx.ob("a re-registration reuses the old registration's location tail (path minus entity_prefix)", okr, ie, w, detail="tail = %s" % stmt_text(v, 70),
                    construct=stmt_text(w, 80) if not conds else "%s [arm %s]" % (stmt_text(w, 60), stmt_text(v, 30)))
         ctx.ob("a re-registration keeps its location", reuse >= 1, ie, n, detail="%d definition(s) reuse oldreg.path" % reuse)
+        ctx.ob("a new endpoint gets a location that is checked to be unused", fresh >= 1, ie, n, detail="%d definition(s) allocate a fresh location" % fresh)
 
         # Registration(path=entity_prefix + tail)
         ri = prog.func("cli.rd.CommonRD.Registration.__init__")
@@ -1353,13 +1497,16 @@ def d(ctx):
     ctx.ob("grace_period is a non-negative constant", isinstance(gv, (int, float)) and gv >= 0, None, None, construct="Registration.grace_period = %s" % (ast.unparse(gp) if gp is not None else "?"))
 
     # refresh_timeout
-    rf = prog.func(REG + "refresh_timeout")
-    rcfg = cfg_of(rf)
-    cancels = [rcfg.loc1(c) for c, _ in find("self.timeout.cancel()", rf.node)]
-    sets = [rcfg.loc1(c) for c, _ in find("self._set_timeout()", rf.node)]
-    ctx.ob("refresh_timeout re-arms the timer on every normal path", bool(sets) and rcfg.must_pass(rcfg.entry, set(sets)), rf, rf.node, construct="refresh_timeout: _set_timeout()")
-    ctx.ob("refresh_timeout cancels the running timer before re-arming", bool(sets) and bool(cancels) and all(any(rcfg.dominates(c, s) and c != s for c in cancels) for s in sets), rf, rf.node,
-           construct="refresh_timeout: timeout.cancel() before _set_timeout()")
+    # (a private helper of update_params: when it was inlined, the cancel-before-re-arm obligation is decided
+    # at the _set_timeout() calls of update_params below)
+    if prog.has_func(REG + "refresh_timeout"):
+        rf = prog.func(REG + "refresh_timeout")
+        rcfg = cfg_of(rf)
+        cancels = [rcfg.loc1(c) for c, _ in find("self.timeout.cancel()", rf.node)]
+        sets = [rcfg.loc1(c) for c, _ in find("self._set_timeout()", rf.node)]
+        ctx.ob("refresh_timeout re-arms the timer on every normal path", bool(sets) and rcfg.must_pass(rcfg.entry, set(sets)), rf, rf.node, construct="refresh_timeout: _set_timeout()")
+        ctx.ob("refresh_timeout cancels the running timer before re-arming", bool(sets) and bool(cancels) and all(any(rcfg.dominates(c, s) and c != s for c in cancels) for s in sets), rf, rf.node,
+               construct="refresh_timeout: timeout.cancel() before _set_timeout()")
 
     # update_params
     up = prog.func(REG + "update_params")
@@ -1376,6 +1523,9 @@ def d(ctx):
     for c, _ in find("self._set_timeout()", up.node):
         nid = ucfg.loc1(c)
         ok = any(isinstance(e, ast.Name) and e.id == init_flag and pol for e, pol, _ in ucfg.guards(nid)) and not writes_to_name(up.node, init_flag)
+        # ... or the running timer is cancelled on every path to the call (refresh_timeout written inline)
+        ucancels = [ucfg.loc1(x) for x, _ in find("self.timeout.cancel()", up.node)]
+        ok = ok or any(ucfg.dominates(x, nid) and x != nid for x in ucancels)
         ctx.ob("an existing registration's timer is never re-armed without cancelling (plain _set_timeout only on the initial call)", ok, up, c)
     ri = prog.func(REG + "__init__")
     calls = [c for c, _ in find("self.update_params($*a, $**k)", ri.node)]
@@ -1683,28 +1833,25 @@ def h_readonly(ctx):
 def i_linkformat(ctx):
     """Added after an independently written breaking change tested `not value` instead of `value is None` in
     util.linkformat.Link.__str__: parameters written as `tag=` came back from lookups as the value-less flag `tag`.
-    Decided on every place where Link.__str__ (or a closure / lambda of it) renders one (key, value) element of
-    self.attr_pairs (K.pair_contexts: loop, comprehension, pair formatter called with the pair, starmap): a
-    rendering unit -- statement, conditional-expression arm, comprehension element -- that mentions the key but
-    not the value is the value-less form and must be conditional on `value is None` (dominating branch outcomes
-    of the statement, conditional-expression tests, comprehension filters; any spelling of the comparison)."""
+    Decided on every place where Link.__str__ (or a closure / lambda / method / module function it uses) renders
+    one (key, value) element of self.attr_pairs (K.pair_contexts: loop, comprehension, pair formatter called with
+    the pair, map / starmap).  The region is executed abstractly path by path (K.PairRendering): every local
+    carries which of key / value it is computed from (so `escaped = value.replace(..)` IS the value, and
+    `item = key` followed by a conditional `item += ...` is followed to where `item` is emitted), and every
+    emission is seen with the branch outcomes, conditional-expression tests, comprehension filters and match
+    cases under which it is reached.  An emission computed from the key but not from the value is the
+    value-less form; the conditions it is reached under must be unsatisfiable for every string value
+    (K.only_for_none: three-valued evaluation for the empty and a non-empty string, any spelling)."""
     outer = ctx.prog.func("util.linkformat.Link.__str__")
     ctxs = K.pair_contexts(ctx.prog, outer)
     ctx.need(bool(ctxs), "Link.__str__: no place found where the (key, value) pairs of self.attr_pairs are rendered")
     bare = []
-    for info in ctxs:
-        scope, k, v, roots, base = info
-        for unit, stmt, conds in K.valueless_emissions(info):
-            allc = list(conds)
-            if scope is not None and stmt is not None:
-                cfg = cfg_of(scope)
-                ids = cfg.locate(stmt)
-                if ids:
-                    allc += guard_exprs(cfg, ids[0])
-            bare.append((scope or outer, unit, v, allc))
+    for pc in ctxs:
+        for unit, conds in K.valueless_emissions(pc):
+            bare.append((pc.scope or outer, unit, pc, conds))
     ctx.ob("the value-less form exists (flags such as `obs`)", bool(bare), outer, outer.node, construct="Link.__str__ pair formatter")
-    for scope, unit, v, conds in bare:
-        ctx.ob("the value-less form is chosen exactly for the value None (an empty string keeps its `=\"\"`)", K.none_atom_holds(conds, v), scope, unit,
+    for scope, unit, pc, conds in bare:
+        ctx.ob("the value-less form is chosen exactly for the value None (an empty string keeps its `=\"\"`)", K.only_for_none(conds, pc), scope, unit,
                detail="conditions: %s" % [(stmt_text(e, 40), p) for e, p in conds])
 
 
@@ -1760,3 +1907,17 @@ R.seed("C20.c", F, "            if path not in self._by_path:\n                r
 R.seed("C20.h", F, "                    data = link.attr_pairs + [[\"anchor\", urljoin(href, \"/\")]]", "                    data = link.attr_pairs\n                    data += [[\"anchor\", urljoin(href, \"/\")]]", "lookup extends the registration's stored attribute list in place (+=)")
 R.seed("C20.i", "aiocoap/util/linkformat.py", "            if value is None:\n                return key", "            if value is None or value == \"\":\n                return key", "empty string treated like a missing value")
 R.seed("C20.b", F, "            del self._by_path[path]\n            del self._by_key[key]\n", "            del self._by_path[path]\n            self._by_key.pop((ep, None), None)\n", "delete callback pops another key (pop spelling)")
+
+# third pass: seeds for the generalised C20.a (helpers of the handlers are optional, branches with a fixed
+# outcome are pruned, reflective stores, `finally`) and for the path-by-path C20.i evaluator
+R.seed("C20.a", F, "        self._update_params(request)\n        self.reg.links = links\n", "        self.reg.links = links\n        self._update_params(request)\n", "PUT replaces the links before the query parameters are validated")
+R.seed("C20.a", F,
+       "    def _update_params(self, msg):\n        query = query_split(msg)\n        self.reg.update_params(msg.remote, query)\n\n    async def render_post(self, request):\n        if request.opt.content_format is not None or request.payload:\n            raise error.BadRequest(\"Registration update with body not specified\")\n\n        self._update_params(request)\n\n        return aiocoap.Message(code=aiocoap.CHANGED)\n\n    async def render_put(self, request):\n        # this is not mentioned in the current spec, but seems to make sense\n        links = link_format_from_message(request)\n\n        self._update_params(request)\n        self.reg.links = links\n\n        return aiocoap.Message(code=aiocoap.CHANGED)\n",
+       "    def _update_params(self, msg, links=None):\n        if links is not None:\n            self.reg.links = links\n        self.reg.update_params(msg.remote, query_split(msg))\n        return aiocoap.Message(code=aiocoap.CHANGED)\n\n    async def render_post(self, request):\n        if request.opt.content_format is not None or request.payload:\n            raise error.BadRequest(\"Registration update with body not specified\")\n\n        return self._update_params(request)\n\n    async def render_put(self, request):\n        return self._update_params(request, links=link_format_from_message(request))\n",
+       "POST and PUT folded into a shared helper that stores the links it is given before the query is validated")
+R.seed("C20.a", F, "        self._update_params(request)\n        self.reg.links = links\n", "        try:\n            self._update_params(request)\n        finally:\n            self.reg.links = links\n", "links replaced in a finally block: also when the update was refused")
+R.seed("C20.a", F, "        self._update_params(request)\n        self.reg.links = links\n", "        setattr(self.reg, \"links\", links)\n        self._update_params(request)\n", "links replaced through setattr before the validation")
+R.seed("C20.i", "aiocoap/util/linkformat.py",
+       "            if value is None:\n                return key\n",
+       "            suffix = '' if value is None or not value.strip() else '=\"%s\"' % value\n            if not suffix:\n                return key\n",
+       "blank values lose their `=` (decided through a derived local)")
